@@ -186,6 +186,8 @@ def gen_table(rng, for_roots=False):
     kind = rng.choice(("poly", "poly", "sin", "exp", "signs"))
     if for_roots:
         kind = rng.choice(("signs", "signs", "sin", "polysmall"))
+        if n >= 5 and rng.random() < 0.12:
+            kind = "flat"
     if kind == "poly":
         deg = rng.randrange(0, n)
         co = [rng.randrange(-5, 6) for _ in range(deg + 1)]
@@ -200,6 +202,13 @@ def gen_table(rng, for_roots=False):
         sc = rng.uniform(0.05, 2.0)
         ys = [sc * (x - r1) * (x - r2) if n > 2 else sc * (x - r1)
               for x in xs]
+    elif kind == "flat":
+        # a crossing with a horizontal tangent (triple root) or a flat
+        # extremum (fourth power): the interpolant changes sign, slowly
+        r1 = rng.uniform(xs[0], xs[-1])
+        sc = rng.uniform(0.05, 2.0) * rng.choice((-1, 1))
+        p = rng.choice((3, 3, 4))
+        ys = [sc * (x - r1) ** p for x in xs]
     elif kind == "sin":
         w = rng.uniform(0.05, 2.5 / max(1e-9, (xs[-1] - xs[0]) / (n - 1)) / 3)
         ph = rng.uniform(0, 6.28)
@@ -591,6 +600,29 @@ def case_root(mon, xs, ys, xl, xh, which):
         mon.check(c2, res <= bound,
                   lambda: dict(case, returned=r, residual=float(res),
                                bound=bound))
+    # the documented iteration limit: with max_iter = 1, 2 or 4 the call
+    # either raises ValueError ("doesn't converge within max_iter
+    # iterations") or returns an abscissa that is converged all the same
+    c3 = which + ".returned-only-when-converged"
+    for k in (1, 2, 4):
+        mon.evals += 1
+        try:
+            it2 = I(list(xs), list(ys))
+            rk = num(it2.root(xl, xh, k) if which == "root"
+                     else it2.minmax(xl, xh, k))
+        except ValueError:
+            mon.ok(c3)
+            continue
+        except Exception as ex:
+            mon.dev(c3, dict(case, max_iter=k, raised=repr(ex)))
+            continue
+        ok = isinstance(rk, (int, float)) and sx[0] <= rk <= sx[-1]
+        resk = abs(f(rk)) if ok else None
+        boundk = tol + (1e-9 * scale if which == "root" else 1e-8 * dscale)
+        mon.check(c3, ok and resk <= boundk,
+                  lambda: dict(case, max_iter=k, returned=rk,
+                               residual=None if resk is None
+                               else float(resk), bound=boundk))
 
 
 def key_root(which, ex):
